@@ -28,6 +28,10 @@ SPEC = dict(
              n=dict(quick=60, thorough=1500), timeout=dict(quick=300, thorough=1800),
              ev=dict(_EV, case_type="list Blocked.case", mismatch="(existsb Blocked.mismatch)",
                      monitor="(existsb Blocked.monitor_fail)")),
+        dict(name="setblocked", kind="test", pkg="./overlord/state", run="TestVerifC07SetBlocked",
+             n=dict(quick=20, thorough=400), timeout=dict(quick=300, thorough=1800),
+             ev=dict(_EV, case_type="list Blocked.case", mismatch="(existsb Blocked.mismatch)",
+                     monitor="(fun _ => false)")),
         dict(name="cleanup", kind="test", pkg="./overlord/state", run="TestVerifC07Cleanup",
              n=dict(quick=30, thorough=600), timeout=dict(quick=300, thorough=1800),
              ev=dict(_EV, case_type="list Blocked.case", mismatch="(existsb Blocked.mismatch)",
@@ -50,6 +54,9 @@ SPEC = dict(
           "hookstate, devicestate, ifacestate, snapstate (other AddBlocked order): disjunction of the verdicts compared. "
           "Each Ensure pass also records r.someBlocked (compared with: some runnable task left idle). Same-change family: each "
           "conflicting pair as two independent tasks of ONE change. "
+          "Restart family (scripted, run): for each conflicting pair X executing, snapd restarts (fresh TaskRunner + managers over "
+          "the same state, no goroutines), X (Doing) and Y both candidates: exactly one starts; random scripts restart too. "
+          "setblocked: scenarios that begin with TaskRunner.SetBlocked(never blocked | one task at a time), later restart. "
           "Abort family (scripted, run): for each of 8 conflicting pairs (two hooks of one snap, connect/disconnect, "
           "setup-profiles/auto-connect, two prerequisites, gadget update vs other in both directions, two gadget updates, hook "
           "vs gadget update) the first handler is executing when its change is aborted by the user (Change.Abort) or its lane "
@@ -70,7 +77,7 @@ SPEC = dict(
         "a run-hook task whose hook-setup cannot be read is not serialized by the hook predicate (Get error => not blocked / ignored), as in the code",
         "stub handlers ignore tomb.Dying() so that a handler keeps executing after its task was aborted (real handlers are only asked to stop); Change.Abort in random scripts is skipped when the change already has a Done task (DESIGN.md finding 11: Abort can panic there)",
         "which tasks are candidates in a pass (status, wait/halt dependencies, scheduled time) is an arbitrary input of the model (any list of candidates in any order), not modelled",
-        "TaskRunner.SetBlocked (replaces all predicates) is modelled (set_blocked) but not used by production code and not exercised",
-        "restarts (ERestart: a new TaskRunner has no tombs) and aborts (EAbort: tombs unchanged) are events of the model; aborts are exercised on the real runner, restarts are not (NewTaskRunner creates an empty tomb map by construction)",
+        "TaskRunner.SetBlocked (replaces all predicates; never called by production code) is modelled (set_blocked) and exercised by driver `setblocked` with two driver predicates (never blocked / one task at a time), compared with the model pass by pass; the exclusions are not promised after it, so that driver has no property monitor",
+        "restarts are exercised as a fresh TaskRunner with freshly constructed managers over the SAME in-memory state (tasks keep their Doing status, the old runner's goroutines stay parked for ever); reloading the state from JSON at that point is C04/C05's subject",
     ],
 )
